@@ -19,7 +19,8 @@ RULE = ("Hypothesis-generated stores (0-12 objects of the 7 stored types, 2-3 ow
         "owner-less legacy rows, objects destroyed again) x Locate requests (every requester incl. a stranger, group "
         "information, KMIP 1.0-2.0, conjunctions of 0-4 filters over the 13 attributes of the "
         "statement with values biased to the store, 1-3 Initial Date values, offset/maximum in "
-        "{absent, 0..n+1, -1}, page walks).  One evaluation = one (store, request) pair: the "
+        "{absent, 0..n+1, -1}, page walks); between the 3-6 Locates on one engine the store changes "
+        "(a new object registered, a state change, a destroy) in a third of the gaps.  One evaluation = one (store, request) pair: the "
         "unpaged Locate twice, then every page.  non-trivial = at least one filter and the model "
         "result is neither empty nor the whole permitted set, or a page cuts a non-empty list; "
         "per-attribute counters nt_filter/<attr> (attr present in a filter-non-trivial request) "
@@ -327,7 +328,23 @@ def gen_case(draw):
     n = draw(st.sampled_from([8, 6, 12, 10, 4, 5, 7, 0, 3, 9, 11, 2, 12, 6, 1, 8]))
     objs = [draw(gen_object(users, pnames, i == 0)) for i in range(n)]
     reqs = [draw(gen_request(users, objs, pnames, pols)) for _ in range(draw(st.integers(3, 6)))]
-    return {"pols": pols, "objs": objs, "reqs": reqs}
+    # the store changes between Locates on the same engine: a new object (must lead the list),
+    # a state change, a destroy - and the next Locate must already reflect it
+    out = []
+    for k, r in enumerate(reqs):
+        if k and draw(st.integers(0, 2)) == 0:
+            kind = draw(st.sampled_from(["add", "add", "state", "destroy"]))
+            if kind == "add":
+                o = draw(gen_object(users, pnames, False))
+                o["orphan"] = False
+                out.append({"mut": "add", "obj": o})
+            elif n:
+                step = {"mut": kind, "i": draw(st.integers(0, n - 1))}
+                if kind == "state":
+                    step["to"] = draw(st.sampled_from(["ACTIVE", "DEACTIVATED", "COMPROMISED"]))
+                out.append(step)
+        out.append(r)
+    return {"pols": pols, "objs": objs, "reqs": out}
 
 
 # ------------------------------------------------------------------------------ store building
@@ -397,6 +414,46 @@ def _register_item(o, i):
     return {"op": "Register", "obj": _obj_payload(o, i), "attrs": attrs}
 
 
+def _add_object(srv, spec, o, i):
+    """Register object spec o (number i) as its owner, drive it to its state; -> model object."""
+    cli = H.Client(srv, o["owner"], None, (1, 4))
+    dt = o.get("dt", 1)
+    if i == 0 and dt < 1:
+        dt = 1
+    H.CLOCK.now += dt
+    if H.CLOCK.now <= 0:
+        H.CLOCK.now = 1
+    r = cli.one(_register_item(o, i), tick=False)
+    if r["status"] != "SUCCESS":
+        raise core.HarnessError("C14 store: Register failed: %r for %r" % (r, o))
+    m = {"uid": r["payload"]["uid"], "date": int(H.CLOCK.now), "t": o["t"],
+         "owner": None if o.get("orphan") else o["owner"],
+         "pol": o.get("pol") or "default",
+         "names": [tuple(x) for x in o.get("names", [])],
+         "grps": list(o.get("grps", [])), "asi": [tuple(a) for a in o.get("asi", [])],
+         "mask": (o.get("mask") or 0) if o["t"] in F.HAS_MASK else None,
+         "sens": bool(o.get("sens")), "alg": o.get("alg") if o["t"] in HAS_ALG else None,
+         "len": o.get("len") if o["t"] in HAS_ALG else None,
+         "ctype": "X_509" if o["t"] == "Certificate" else None, "state": None}
+    if o["t"] != "OpaqueData":
+        st_ = o.get("state", "PRE_ACTIVE")
+        if not _activatable(o, spec.get("pols", {})):
+            st_ = "PRE_ACTIVE"
+        m["state"] = st_
+        if st_ != "PRE_ACTIVE":
+            try:
+                _put_state(cli, m["uid"], st_)
+            except AssertionError as e:
+                raise core.HarnessError("C14 store: state change failed: %s" % (e,))
+    m["gone"] = False
+    if o.get("gone") and _activatable(o, spec.get("pols", {})) and m["state"] != "ACTIVE":
+        r = cli.one({"op": "Destroy", "uid": m["uid"]}, tick=False)
+        if r["status"] != "SUCCESS":
+            raise core.HarnessError("C14 store: Destroy failed: %r for %r" % (r, o))
+        m["gone"] = True
+    return m
+
+
 def build_store(spec):
     """Returns (server, model objects).  A model object holds what the requester of a Locate can
     know about the object: what was registered plus the server-assigned identifier and the clock
@@ -409,42 +466,7 @@ def build_store(spec):
     model = []
     try:
         for i, o in enumerate(spec.get("objs", [])):
-            cli = H.Client(srv, o["owner"], None, (1, 4))
-            dt = o.get("dt", 1)
-            if i == 0 and dt < 1:
-                dt = 1
-            H.CLOCK.now += dt
-            if H.CLOCK.now <= 0:
-                H.CLOCK.now = 1
-            r = cli.one(_register_item(o, i), tick=False)
-            if r["status"] != "SUCCESS":
-                raise core.HarnessError("C14 store: Register failed: %r for %r" % (r, o))
-            m = {"uid": r["payload"]["uid"], "date": int(H.CLOCK.now), "t": o["t"],
-                 "owner": None if o.get("orphan") else o["owner"],
-                 "pol": o.get("pol") or "default",
-                 "names": [tuple(x) for x in o.get("names", [])],
-                 "grps": list(o.get("grps", [])), "asi": [tuple(a) for a in o.get("asi", [])],
-                 "mask": (o.get("mask") or 0) if o["t"] in F.HAS_MASK else None,
-                 "sens": bool(o.get("sens")), "alg": o.get("alg") if o["t"] in HAS_ALG else None,
-                 "len": o.get("len") if o["t"] in HAS_ALG else None,
-                 "ctype": "X_509" if o["t"] == "Certificate" else None, "state": None}
-            if o["t"] != "OpaqueData":
-                st_ = o.get("state", "PRE_ACTIVE")
-                if not _activatable(o, spec.get("pols", {})):
-                    st_ = "PRE_ACTIVE"
-                m["state"] = st_
-                if st_ != "PRE_ACTIVE":
-                    try:
-                        _put_state(cli, m["uid"], st_)
-                    except AssertionError as e:
-                        raise core.HarnessError("C14 store: state change failed: %s" % (e,))
-            m["gone"] = False
-            if o.get("gone") and _activatable(o, spec.get("pols", {})) and m["state"] != "ACTIVE":
-                r = cli.one({"op": "Destroy", "uid": m["uid"]}, tick=False)
-                if r["status"] != "SUCCESS":
-                    raise core.HarnessError("C14 store: Destroy failed: %r for %r" % (r, o))
-                m["gone"] = True
-            model.append(m)
+            model.append(_add_object(srv, spec, o, i))
         orphans = [m["uid"] for m, o in zip(model, spec.get("objs", []))
                    if o.get("orphan") and not m["gone"]]
         if orphans:
@@ -872,14 +894,68 @@ def _name_deviation(cli, pols, model, who, groups, filters, got, req, full):
     return out
 
 
+RANK = {"PRE_ACTIVE": 0, "ACTIVE": 1, "DEACTIVATED": 2, "COMPROMISED": 3}
+
+
+def apply_mutation(srv, spec, model, ospecs, step):
+    """Change the store between two Locates (as the owner, through the server) and the model with
+    it.  Steps that the lifecycle or the object's policy do not allow are skipped.  -> applied?"""
+    pols = spec.get("pols", {})
+    if step["mut"] == "add":
+        o = step["obj"]
+        model.append(_add_object(srv, spec, o, len(ospecs)))
+        ospecs.append(o)
+        return True
+    if not model:
+        return False
+    i = step["i"] % len(model)
+    m, o = model[i], ospecs[i]
+    if m["gone"] or o.get("orphan") or not _activatable(o, pols):
+        return False
+    cli = H.Client(srv, o["owner"], None, (1, 4))
+
+    def do(item):
+        r = cli.one(item, tick=False)
+        if r["status"] != "SUCCESS":
+            raise core.HarnessError("C14 mutation %r failed: %r" % (item, r))
+    if step["mut"] == "destroy":
+        if m["state"] == "ACTIVE":
+            return False
+        do({"op": "Destroy", "uid": m["uid"]})
+        m["gone"] = True
+        return True
+    if step["mut"] == "state":
+        to, cur = step["to"], m["state"]
+        if cur is None or RANK[to] <= RANK[cur]:
+            return False
+        if to == "ACTIVE":
+            do({"op": "Activate", "uid": m["uid"]})
+        elif to == "DEACTIVATED":
+            if cur == "PRE_ACTIVE":
+                do({"op": "Activate", "uid": m["uid"]})
+            do({"op": "Revoke", "uid": m["uid"], "code": "CESSATION_OF_OPERATION"})
+        else:
+            do({"op": "Revoke", "uid": m["uid"], "code": "KEY_COMPROMISE"})
+        m["state"] = to
+        return True
+    raise core.HarnessError("unknown mutation %r" % (step,))
+
+
 def run_case(spec):
     """Runs every request of the spec against a freshly built store.
     Returns a list with one result dict per request."""
     srv, model = build_store(spec)
     res = []
+    ospecs = list(spec.get("objs", []))
+    mutated = False
     try:
         for req in spec.get("reqs", []):
+            if "mut" in req:
+                mutated = apply_mutation(srv, spec, model, ospecs, req) or mutated
+                continue
             out = judge_request(srv, spec.get("pols", {}), model, req)
+            if mutated:
+                out["classes"].append("store-changed-between-locates")
             ts = sorted(set(m["t"] for m in model))
             out["classes"].append("store-types:%d" % len(ts))
             if any(o.get("orphan") for o in spec.get("objs", [])):
@@ -911,8 +987,15 @@ def worker(n, seed):
     def one(spec):
         results = run_case(spec)
         col.bump("stores")
-        for req, out in zip(spec["reqs"], results):
-            single = {"pols": spec["pols"], "objs": spec["objs"], "reqs": [req]}
+        real = [(k, r) for k, r in enumerate(spec["reqs"]) if "mut" not in r]
+        for (k, req), out in zip(real, results):
+            before = [r for r in spec["reqs"][:k] if "mut" in r]
+            # a Locate before a change matters only if the engine keeps something: keep the
+            # first earlier request too when the store changed in between
+            first = [r for r in spec["reqs"][:k] if "mut" not in r][:1] if before else []
+            single = {"pols": spec["pols"], "objs": spec["objs"],
+                      "reqs": (first + before if not first else
+                               [x for x in spec["reqs"][:k] if "mut" in x or x is first[0]]) + [req]}
             for reason in out["excluded"]:
                 col.exclude(reason)
             for b in out["bumps"]:
